@@ -307,8 +307,9 @@ theorem sim_restore (cfg : Cfg) (segs) {s : St} {a : AddrSpec.A} (h : R s a) (la
         (decode cfg s .restore).s.pstack = s.pstack ∧ (decode cfg s .restore).s.used = s.used ∧ (decode cfg s .restore).s.structs = s.structs ∧
         (decode cfg s .restore).codeLen = 0 ∧ (decode cfg s .restore).crash = false ∧ (decode cfg s .restore).errs = [] ∧
         (decode cfg s .restore).defs = [] := by
+      have hp : p ≠ structSeg := hok.1
       simp only [decode, codeRESTORE, hs]
-      by_cases h1 : p = s.actPC <;> by_cases h2 : c = s.cpu <;> simp [h1, h2]
+      by_cases h1 : p = s.actPC <;> by_cases h2 : c = s.cpu <;> simp [h1, h2, hp]
     obtain ⟨e1, e2, e3, e4, e5, e6, e7, e8, e9, f1, f2, f3, f4⟩ := hfacts
     apply sim_close0 cfg segs h lab .restore rfl (a' := { a with cpu := c, seg := p, listing := l, saved := rest })
     · simp [AddrSpec.step, h.frames, hsv, spec_ldefs h.frames lab .restore rfl]
